@@ -54,13 +54,13 @@ static void find_if_T(const CaseCfg& c, Rng& rng, Outcome& o) {
   bool ok = true;
   if (ret > n) {
     ok = false;
-    o.violation("C16:find_if:bad-iterator", w.kv("what", "returned iterator is not in [first,last]").str());
+    o.violation("C16:find_if:bad-iterator", J(w).kv("what", "returned iterator is not in [first,last]").str());
   } else if (ret == n && nMatch > 0) {
     ok = false;
-    o.violation("C16:find_if:missed-match", w.kv("what", "returned last although an element satisfies the predicate").str());
+    o.violation("C16:find_if:missed-match", J(w).kv("what", "returned last although an element satisfies the predicate").str());
   } else if (ret < n && !predPure(c.pred, keys[ret])) {
     ok = false;
-    o.violation("C16:find_if:false-match", w.kv("what", "returned element does not satisfy the predicate")
+    o.violation("C16:find_if:false-match", J(w).kv("what", "returned element does not satisfy the predicate")
                                                .kv("key", keys[ret]).str());
   }
   o.cls = !ok ? "bad" : (ret == n ? "none" : (ret == firstMatch ? "first" : "later"));
